@@ -468,10 +468,10 @@ def run(ctx):
                               % (SL.REALNAME[inst['solver']], inst['tag']))
                 else:
                     ctx.violation(sig_of(inst, 'callback-count' if cl in ('callback-count', 'length') else cl),
-                                  dict(meta, stage='trace', tlc_clauses=clauses))
+                                  dict(meta, stage='trace', tlc_clauses=clauses, clause='callbacks'))
         else:
             for cl in clauses:
-                clause = ev['clause'] if cl in ('differs', 'length') else cl
+                clause = ev['clause'] if cl == 'differs' else 'callback-count' if cl == 'length' else cl
                 if 'inst' in meta:
                     sig = sig_of(meta['inst'], clause)
                 else:
@@ -502,51 +502,41 @@ def replay(body):
         bad = bool(err) or n != N
         print('REPRODUCED' if bad else 'NOT-REPRODUCED')
         return 1 if bad else 0
-    if 'desc' in d:
-        desc = d['desc']
-        segs = d['segments']
-        N = sum(segs)
-        if d['clause'] == 'optimised-vs-simple':
-            a, b = SL.rel_run(desc, 'opt', [N]), SL.rel_run(desc, 'simple', [N])
-        else:
-            a, b = SL.rel_run(desc, 'opt', [N]), SL.rel_run(desc, 'opt', segs)
-        print('instance :', dumps(desc))
-        print('errors   :', a['err'], b['err'])
-        bad = bool(a['err'] or b['err'])
-        if not bad:
-            bad = len(a['its']) != len(b['its']) or any(
-                not np.allclose(u, v, rtol=2.0 ** -18, atol=0) for u, v in zip(a['its'], b['its']))
-            bad = bad or (sig['clause'] == 'callback-count')
-            for k, (u, v) in enumerate(zip(a['its'], b['its']), start=1):
-                if not np.allclose(u, v, rtol=2.0 ** -18, atol=0):
-                    print('iteration %d: %s  vs  %s' % (k, u, v))
-                    break
-        print('REPRODUCED' if bad else 'NOT-REPRODUCED')
-        return 1 if bad else 0
-    inst, conc, segs = d['inst'], d['conc'], d['segments']
-    print('instance :', inst['solver'], inst['tag'], 'concretisation', conc, 'segments', segs)
-    N = sum(segs)
     clause = sig['clause']
-    if clause == 'optimised-vs-simple':
-        a, b = SL.run_real(inst, conc, 'opt', [N]), SL.run_real(inst, conc, 'simple', [N])
-    elif clause == 'resume':
-        a, b = SL.run_real(inst, conc, 'opt', [N], pass_state=True), SL.run_real(inst, conc, 'opt', segs,
-                                                                                 pass_state=True)
-        if d.get('note'):
-            b = SL.run_real(inst, conc, 'opt', [N], pass_state=False)
+    rel = 'desc' in d
+    segs = d['segments']
+    N = sum(segs)
+    which = d.get('clause', clause)          # the comparison the event was recorded for
+    if rel:
+        desc = d['desc']
+        print('instance :', dumps(desc))
+        runner = lambda variant, sg, ps=True: SL.rel_run(desc, variant, sg, pass_state=ps)
     else:
-        a = SL.run_real(inst, conc, d.get('variant', 'opt') if d.get('variant') != 'pair' else 'opt', segs)
-        b = a
-    print('errors   :', a['err'], b['err'], 'callbacks', a['ncb'], b['ncb'])
-    bad = bool(a['err'] or b['err'])
-    if clause in ('callback-count',):
-        bad = bad or a['ncb'] not in (segs, [-1])
-    elif not bad:
+        inst, conc = d['inst'], d['conc']
+        print('instance :', inst['solver'], inst['tag'], 'concretisation', conc, 'segments', segs)
+        runner = lambda variant, sg, ps=True: SL.run_real(inst, conc, variant, sg, pass_state=ps)
+    if which == 'optimised-vs-simple' or d.get('variant') == 'simple':
+        a, b, bsegs = runner('opt', [N]), runner('simple', [N]), [N]
+    elif d.get('note'):                      # pdhg: x_relax / y owned by the caller vs the plain call
+        a, b, bsegs = runner('opt', [N], True), runner('opt', [N], False), [N]
+    else:
+        a, b, bsegs = runner('opt', [N]), runner('opt', segs), segs
+    print('errors   :', a['err'], b['err'], ' callbacks:', a['ncb'], b['ncb'])
+    bad_err = bool(a['err'] or b['err'])
+    bad_cb = (not bad_err) and (a['ncb'] != [N] or b['ncb'] not in ([-1], bsegs))
+    bad_val = False
+    if not bad_err:
+        tol = dict(rtol=2.0 ** -18, atol=0) if rel else dict(rtol=0, atol=2.0 ** -22)
         for k, (u, v) in enumerate(zip(a['its'], b['its']), start=1):
-            if not np.allclose(u, v, rtol=0, atol=2.0 ** -22):
+            if u.shape != v.shape or not np.allclose(u, v, **tol):
                 print('iteration %d: %s  vs  %s   (specification: %s)' % (k, u, v, d.get('specification')))
-                bad = True
+                bad_val = True
                 break
-        bad = bad or len(a['its']) != len(b['its'])
+        if not bad_val and not bad_cb:
+            for fld in ('x', 'y', 'xr'):
+                if a[fld] is not None and b[fld] is not None and not np.allclose(a[fld], b[fld], **tol):
+                    print('final %s: %s  vs  %s' % (fld, a[fld], b[fld]))
+                    bad_val = True
+    bad = bad_cb if clause == 'callback-count' else bad_err if clause == 'raised' else (bad_err or bad_val)
     print('REPRODUCED' if bad else 'NOT-REPRODUCED')
     return 1 if bad else 0
